@@ -335,6 +335,62 @@ def run(prog):
     out += nb_inv(prog, bodies)
     out += nb_mod(prog, bodies)
     out += nb_poly(prog)
+    out += nb_primes(prog, primes)
+    return out
+
+
+_SMALL = [2, 3, 5, 7, 11, 13, 17, 19, 23, 29, 31, 37, 41, 43, 47, 53, 59, 61, 67, 71, 73, 79, 83, 89, 97, 101, 103, 107, 109, 113,
+          127, 131, 137, 139, 149, 151, 157, 163, 167, 173, 179, 181, 191, 193, 197, 199, 211, 223, 227, 229, 233, 239, 241, 251,
+          257, 263, 269, 271, 277, 281, 283, 293, 307, 311]
+
+
+def compositeness_witness(n):
+    """a proof that n is composite — ('factor', d) or ('miller-rabin', base) — or None.  A witness is a certificate;
+    None means n passed trial division to 311 and 64 rounds of Miller–Rabin (strong pseudoprime to all 64 bases: for
+    n < 3.3e24 that is a proof of primality, above it the error is below 4^-64)."""
+    if n < 2:
+        return ("factor", n)
+    for p in _SMALL:
+        if n == p:
+            return None
+        if n % p == 0:
+            return ("factor", p)
+    d, r = n - 1, 0
+    while d % 2 == 0:
+        d //= 2
+        r += 1
+    for a in _SMALL:
+        x = pow(a, d, n)
+        if x in (1, n - 1):
+            continue
+        for _ in range(r - 1):
+            x = x * x % n
+            if x == n - 1:
+                break
+        else:
+            return ("miller-rabin", a)
+    return None
+
+
+def nb_primes(prog, primes):
+    """NB-prime: the moduli exported as `constants::primes::*` are prime.  FiniteField<P> is a field only then: with a
+    composite P it has zero divisors, and everything in the semantic builders that compares a *product* of hashes with
+    zero (a conjunction with hash 0 is the false constant) turns two satisfiable operands into False for inputs that are
+    cheap to construct (one factor of P per operand)."""
+    out = []
+    for pname, P in sorted(primes.items()):
+        w = compositeness_witness(P)
+        c = [c_ for p_, c_ in prog.consts.items() if mir.last_seg(p_) == pname and "constants::primes::" in p_]
+        loc = (c[0].get("file", "src/constants.rs") + ":%s" % c[0].get("line", 0)) if c else "src/constants.rs:0"
+        if w is None:
+            out.append(inst("NB", "constants::primes::%s:is-prime" % pname, OK, None, None,
+                            "%d passes trial division and 64 Miller–Rabin rounds" % P, loc=loc))
+        else:
+            how = "%d divides it" % w[1] if w[0] == "factor" else "%d is a Miller–Rabin witness of compositeness" % w[1]
+            out.append(inst("NB", "constants::primes::%s:is-prime" % pname, VIOLATION, None, None,
+                            "%s = %d is not prime (%s): FiniteField<%s> has zero divisors, so a product of two non-zero semantic "
+                            "hashes can be 0 and the semantic builders answer False for a satisfiable conjunction"
+                            % (pname, P, how, pname), loc=loc))
     return out
 
 
